@@ -345,7 +345,16 @@ func (fx *FuncCtx) fresh(t types.Type, hint string) Val {
 			oo := fx.declare(sortArr, hint+"_so")
 			ll := fx.declare(sortArr, hint+"_sl")
 			// element well-formedness is assumed at reads
-			return VStrs{bb, oo, ll, n}
+			return VStrs{B: bb, O: oo, L: ll, N: n}
+		}
+		if nm, ok := u.Elem().(*types.Named); ok {
+			if st, ok := nm.Underlying().(*types.Struct); ok && st.NumFields() == 1 {
+				if b, ok := st.Field(0).Type().Underlying().(*types.Basic); ok && b.Info()&types.IsString != 0 {
+					n := fx.declare(sortInt, hint+"_n")
+					fx.emit(fmt.Sprintf("(assert (and (<= 0 %s) (< %s %s)))", n, n, maxLen))
+					return VStrs{B: fx.declare(sortArrArr, hint+"_sb"), O: fx.declare(sortArr, hint+"_so"), L: fx.declare(sortArr, hint+"_sl"), N: n, Wrap: nm.Obj().Name(), WrapField: st.Field(0).Name()}
+				}
+			}
 		}
 		if isEmptyInterface(u.Elem()) {
 			n := fx.declare(sortInt, hint+"_n")
